@@ -25,17 +25,20 @@ CONSTANT CheckObs,   \* TRUE: validation.  FALSE: diagnosis - follow the calls, 
 
 Tr == ndJsonDeserialize(IOEnv.TRACE)
 
-VARIABLE l           \* index of the next event
+VARIABLE l,          \* index of the next event
+         div         \* (MaskByHas) the real object and the specification disagree on which pairs
+                     \* are edges: the rest of this history is not judged (until the next reset)
 
-tvars == <<g, gh, last, l>>
+tvars == <<g, gh, last, l, div>>
 
-TInit == Init /\ l = 1
+TInit == Init /\ l = 1 /\ div = FALSE
 
 TReset == /\ Tr[l].c.op = "reset"
           /\ g' = Empty(0)
           /\ gh' = GEmpty(0)
           /\ last' = [c |-> Tr[l].c, out |-> "ok"]
           /\ l' = l + 1
+          /\ div' = FALSE
 
 \* the logged projection carries exactly the compared observers (plus "inconsistent" when the
 \* harness found the real observers inconsistent with each other - which never matches)
@@ -48,13 +51,17 @@ MaskedEq(o, e) ==        \* o: specification, e: logged
           (o.has[i][j] = e.has[i][j]) =>
              /\ o.lab[i][j] = e.lab[i][j] /\ o.labd[i][j] = e.labd[i][j]
              /\ \A lb \in 1 .. 3 : o.hasl[lb][i][j] = e.hasl[lb][i][j]
-Differs(ev, r) == r.out # ev.out \/ (IF MaskByHas /\ "n" \in DOMAIN ev.obs /\ ev.obs.n = r.g.n
+OutDiffers(ev, r) == r.out # ev.out /\ ~(MaskByHas /\ "out_of_range" \notin {r.out, ev.out})
+Differs(ev, r) == OutDiffers(ev, r) \/ (IF MaskByHas /\ "n" \in DOMAIN ev.obs /\ ev.obs.n = r.g.n
                                        THEN ~MaskedEq(Obs(r.g), ev.obs) ELSE Proj(Obs(r.g)) # ev.obs)
 
 TStep == /\ Tr[l].c.op # "reset"
          /\ LET ev == Tr[l]
                 r  == Step(g, ev.c)
-            IN  /\ IF CheckObs THEN ~Differs(ev, r)
+                edgesDiffer == MaskByHas /\ "has" \in DOMAIN ev.obs /\ ev.obs.has # Obs(r.g).has
+            IN  /\ div' = (div \/ edgesDiffer)
+                /\ IF div \/ edgesDiffer THEN TRUE
+                   ELSE IF CheckObs THEN ~Differs(ev, r)
                    ELSE Differs(ev, r) =>
                           PrintT(ToJson([mismatch_at |-> l, call |-> ev.c,
                                          expected |-> [out |-> r.out, obs |-> Proj(Obs(r.g))],
